@@ -42,6 +42,7 @@ type c02Case struct {
 	// RETR) fetch the message at the same time instead of one after the other.
 	Busy   bool
 	OtherN int
+	Fault  fsFault // file back-end: a disk fault while the message is being stored
 }
 
 func (k *c02Case) busyString() string {
@@ -51,8 +52,10 @@ func (k *c02Case) busyString() string {
 	return fmt.Sprintf("busy server: second SMTP session (%d-byte message) alongside, readers concurrent", k.OtherN)
 }
 
+func (k *c02Case) faultString() string { return k.Fault.String() }
+
 func (k *c02Case) Describe() []string {
-	l := []string{fmt.Sprintf("store=%s %s recipients=%d noFinalNewline=%v size=%d", k.Store, profileString(k.Net), k.Rcpts, k.NoFinal, len(k.data())), k.busyString()}
+	l := []string{fmt.Sprintf("store=%s %s recipients=%d noFinalNewline=%v size=%d", k.Store, profileString(k.Net), k.Rcpts, k.NoFinal, len(k.data())), k.busyString(), k.faultString()}
 	for i, p := range k.Pieces {
 		l = append(l, fmt.Sprintf("%3d %s n=%d", i, p.Kind, p.N))
 	}
@@ -167,6 +170,9 @@ func genC02(w *simrt.Choices, tier string, avoid map[string]bool) Case {
 	}
 	k.Busy = w.Choose(3) == 0
 	k.OtherN = []int{30, 500, 3000, 9000}[w.Choose(4)]
+	if k.Store.Backend == "file" && !k.Busy {
+		k.Fault = genFSFault(w, 1)
+	}
 	return k
 }
 
@@ -202,7 +208,7 @@ func runC02(c *Ctx, cs Case) {
 	const sender, helo = "sender@origin.test", "client.sim"
 	boxes := []string{"reader", "reader2", "reader3"}[:k.Rcpts]
 	box := boxes[len(boxes)-1] // the interfaces are compared on the last recipient's copy
-	okSent := false
+	okSent, faultRefused := false, false
 	t := c.Go("smtp-client", func() {
 		cl, err := dialSMTP(c, "smtp", 900*time.Second)
 		if err != nil {
@@ -220,7 +226,17 @@ func runC02(c *Ctx, cs Case) {
 			c.Failf("data-refused", "DATA answered %s", r)
 			return
 		}
-		if fin := cl.sendData(data); fin.Code != 250 {
+		fired := fsFired(c.Sim)
+		disarm := k.Fault.arm(c.Sim)
+		fin := cl.sendData(data)
+		disarm()
+		if fin.Code != 250 {
+			if fsFired(c.Sim) > fired {
+				// the disk failed and the server said so: nothing is promised about this message
+				c.Stat("probe.transaction_refused_after_disk_fault", 1)
+				faultRefused = true
+				return
+			}
 			c.Failf("message-refused", "a %d-byte message was answered %s", len(data), fin)
 			return
 		}
@@ -268,6 +284,11 @@ func runC02(c *Ctx, cs Case) {
 	c.Main.Join(t)
 	if t2 != nil {
 		c.Main.Join(t2)
+	}
+	if faultRefused {
+		env.cancel()
+		pop.stop()
+		return
 	}
 	if c.Failed() || !okSent {
 		return
